@@ -187,8 +187,11 @@ static void run_prog(scenario *sc,int prog);
 
 struct scenario {
 	std::unique_ptr<io::io_service> srv;
-	std::vector<std::unique_ptr<io::stream_socket> > socks;
+	// devices: first the sockets of the socket pairs (peer = raw descriptor of the other side, never closed by the
+	// script), then for every pipe its read end and its write end (both are devices of the scenario)
+	std::vector<std::unique_ptr<io::basic_io_device> > socks;
 	std::vector<int> ours,peers;
+	std::vector<int> kind,peer_idx;   // 0 socket, 1 pipe read end, 2 pipe write end; index of the other end
 	std::vector<std::unique_ptr<io::deadline_timer> > timers;
 	std::vector<std::vector<op_t> > progs;
 	std::vector<hinfo> hs;
@@ -252,7 +255,7 @@ static error_code code_from(std::string const &c)
 	return error_code(EIO,booster::system::system_category());
 }
 
-static io::stream_socket *sock_of(scenario *sc,std::string const &f,std::unique_ptr<io::stream_socket> &tmp)
+static io::basic_io_device *sock_of(scenario *sc,std::string const &f,std::unique_ptr<io::basic_io_device> &tmp)
 {
 	if(f=="x") { tmp.reset(new io::stream_socket(*sc->srv)); return tmp.get(); }
 	size_t i=strtoul(f.c_str(),0,10);
@@ -289,14 +292,14 @@ static void do_op(scenario *sc,op_t const &o)
 		sc->timers[k]->cancel();
 	}
 	else if((o.name=="ar" || o.name=="aw") && o.a.size()==2) {
-		std::unique_ptr<io::stream_socket> tmp;
-		io::stream_socket *s=sock_of(sc,o.a[0],tmp);
+		std::unique_ptr<io::basic_io_device> tmp;
+		io::basic_io_device *s=sock_of(sc,o.a[0],tmp);
 		int id=sc->new_handler('i',0,atoi(o.a[1].c_str()));
 		booster::intrusive_ptr<ev_call> p(new ev_call(sc,id));
 		if(o.name=="ar") s->on_readable(io::event_handler(p)); else s->on_writeable(io::event_handler(p));
 	}
 	else if(o.name=="ca" && o.a.size()==1) {
-		std::unique_ptr<io::stream_socket> tmp;
+		std::unique_ptr<io::basic_io_device> tmp;
 		sock_of(sc,o.a[0],tmp)->cancel();
 	}
 	else if(o.name=="cl" && o.a.size()==1) {
@@ -309,13 +312,22 @@ static void do_op(scenario *sc,op_t const &o)
 	else if(o.name=="pw" && o.a.size()==1) {
 		size_t i=strtoul(o.a[0].c_str(),0,10);
 		// the other end may have been closed by the script already (EPIPE): the byte is then simply not delivered
-		if(i<sc->peers.size()) { char c='x'; (void)::send(sc->peers[i],&c,1,MSG_NOSIGNAL|MSG_DONTWAIT); }
+		if(i<sc->socks.size()) {
+			char c='x';
+			if(sc->kind[i]==0) (void)::send(sc->peers[i],&c,1,MSG_NOSIGNAL|MSG_DONTWAIT);
+			else if(sc->kind[i]==1) {
+				// a byte into the pipe, through its write end, if that is still open
+				int wfd=sc->socks[sc->peer_idx[i]]->native();
+				if(wfd!=io::invalid_socket) (void)::write(wfd,&c,1);
+			}
+		}
 	}
 	else if(o.name=="dr" && o.a.size()==1) {
 		size_t i=strtoul(o.a[0].c_str(),0,10);
 		if(i<sc->socks.size() && sc->socks[i]->native()!=io::invalid_socket) {
 			char buf[256];
-			while(::recv(sc->socks[i]->native(),buf,sizeof(buf),MSG_DONTWAIT)>0) ;
+			if(sc->kind[i]==0) { while(::recv(sc->socks[i]->native(),buf,sizeof(buf),MSG_DONTWAIT)>0) ; }
+			else if(sc->kind[i]==1) { while(::read(sc->socks[i]->native(),buf,sizeof(buf))>0) ; }
 		}
 	}
 	else if(o.name=="st" && o.a.empty()) {
@@ -367,7 +379,8 @@ static std::string run_loop_case(std::vector<std::string> const &w,int backend)
 {
 	if(w.size()<3) return "bad-op";
 	scenario sc;
-	size_t ns=strtoul(w[1].c_str(),0,10),nt=strtoul(w[2].c_str(),0,10);
+	size_t ns=strtoul(w[1].c_str(),0,10),nt=strtoul(w[2].c_str(),0,10),np=0;
+	if(w[1].find('+')!=std::string::npos) np=strtoul(w[1].c_str()+w[1].find('+')+1,0,10);
 	size_t i=3;
 	for(;i<w.size() && w[i]!="S";i++) {
 		size_t eq=w[i].find('=');
@@ -395,8 +408,25 @@ static std::string run_loop_case(std::vector<std::string> const &w,int backend)
 		s->assign(fds[0]);
 		sc.socks.push_back(std::move(s));
 		sc.ours.push_back(fds[0]); sc.peers.push_back(fds[1]);
+		sc.kind.push_back(0); sc.peer_idx.push_back(int(k));
 		std::unique_lock<std::mutex> lk(ls::m);
 		ls::our_fds.insert(fds[0]);
+	}
+	for(size_t k=0;k<np;k++) {
+		int fds[2];
+		if(::pipe(fds)<0) return "bad-op pipe";
+		::fcntl(fds[0],F_SETFL,::fcntl(fds[0],F_GETFL,0)|O_NONBLOCK);
+		::fcntl(fds[1],F_SETFL,::fcntl(fds[1],F_GETFL,0)|O_NONBLOCK);
+		for(int e=0;e<2;e++) {
+			std::unique_ptr<io::basic_io_device> dev(new io::basic_io_device(*sc.srv));
+			dev->assign(fds[e]);
+			sc.socks.push_back(std::move(dev));
+			sc.ours.push_back(fds[e]); sc.peers.push_back(-1);
+			sc.kind.push_back(e==0?1:2);
+			sc.peer_idx.push_back(int(ns+2*k+(e==0?1:0)));
+			std::unique_lock<std::mutex> lk(ls::m);
+			ls::our_fds.insert(fds[e]);
+		}
 	}
 	for(size_t k=0;k<nt;k++)
 		sc.timers.push_back(std::unique_ptr<io::deadline_timer>(new io::deadline_timer(*sc.srv)));
@@ -477,7 +507,7 @@ static std::string run_loop_case(std::vector<std::string> const &w,int backend)
 	}
 	sc.timers.clear();
 	sc.socks.clear();
-	for(size_t k=0;k<sc.peers.size();k++) ::close(sc.peers[k]);
+	for(size_t k=0;k<sc.peers.size();k++) if(sc.peers[k]>=0) ::close(sc.peers[k]);
 	sc.srv.reset();
 	return out.str();
 }
